@@ -68,10 +68,16 @@ def plain_annassign(stmts: List[ast.stmt]) -> List[ast.stmt]:
     return out
 
 
-def split_assign(stmts: List[ast.stmt]) -> List[ast.stmt]:
-    """SPLIT alone: `a, b = x, y` -> `a = x; b = y` when no target is read by a later element (recursively)"""
+def split_assign(stmts: List[ast.stmt], namedtuples=None) -> List[ast.stmt]:
+    """SPLIT alone: `a, b = x, y` -> `a = x; b = y` when no target is read by a later element (recursively); with `namedtuples`, a positional
+    construction `a, b = NT(x, y)` of a known namedtuple splits the same way"""
     out = []
     for s in stmts:
+        if namedtuples and isinstance(s, ast.Assign) and len(s.targets) == 1 and isinstance(s.targets[0], (ast.Tuple, ast.List)) \
+                and isinstance(s.value, ast.Call) and isinstance(s.value.func, ast.Name) and s.value.func.id in namedtuples \
+                and len(s.value.args) == len(namedtuples[s.value.func.id]) == len(s.targets[0].elts) and not s.value.keywords \
+                and not any(isinstance(a_, ast.Starred) for a_ in s.value.args):
+            s = ast.copy_location(ast.Assign([s.targets[0]], ast.Tuple(list(s.value.args), ast.Load())), s)
         if isinstance(s, ast.Assign) and len(s.targets) == 1 and isinstance(s.targets[0], (ast.Tuple, ast.List)) \
                 and isinstance(s.value, (ast.Tuple, ast.List)) and len(s.targets[0].elts) == len(s.value.elts) \
                 and not any(isinstance(e, ast.Starred) for e in s.targets[0].elts + s.value.elts):
@@ -84,7 +90,89 @@ def split_assign(stmts: List[ast.stmt]) -> List[ast.stmt]:
         for fld in ("body", "orelse", "finalbody"):
             v = getattr(s, fld, None)
             if isinstance(v, list) and v and all(isinstance(x, ast.stmt) for x in v):
-                setattr(s, fld, split_assign(v))
+                setattr(s, fld, split_assign(v, namedtuples))
+        out.append(s)
+    return out
+
+
+def coalesce_copies(fn_body: List[ast.stmt]) -> List[ast.stmt]:
+    """COALESCE: in one statement list, `a = A` ... `A = a` where A is neither read nor written in between and `a` occurs nowhere outside that
+    stretch: `a` is A's working copy -- it is renamed to A and the two copies are dropped (the value flow is unchanged on normal termination).
+    This is what threading a value through an inlined helper leaves behind."""
+    def names_in(nodes, name):
+        return [x for n in nodes for x in ast.walk(n) if isinstance(x, ast.Name) and x.id == name]
+    whole = ast.Module(body=fn_body, type_ignores=[])
+
+    def work(stmts):
+        for s in stmts:
+            for fld in ("body", "orelse", "finalbody"):
+                v = getattr(s, fld, None)
+                if isinstance(v, list) and v and all(isinstance(x, ast.stmt) for x in v):
+                    setattr(s, fld, work(v))
+        changed = True
+        while changed:
+            changed = False
+            for i, si in enumerate(stmts):
+                if not (isinstance(si, ast.Assign) and len(si.targets) == 1 and isinstance(si.targets[0], ast.Name) and isinstance(si.value, ast.Name)
+                        and si.targets[0].id != si.value.id):
+                    continue
+                a, A = si.targets[0].id, si.value.id
+                for j in range(i + 1, len(stmts)):
+                    sj = stmts[j]
+                    if isinstance(sj, ast.Assign) and len(sj.targets) == 1 and isinstance(sj.targets[0], ast.Name) and sj.targets[0].id == A \
+                            and isinstance(sj.value, ast.Name) and sj.value.id == a:
+                        between = stmts[i + 1:j]
+                        if names_in(between, A):
+                            break
+                        total_a = len(names_in([whole], a))
+                        inside_a = len(names_in(stmts[i:j + 1], a))
+                        if total_a != inside_a:
+                            break
+                        for x in names_in(between, a):
+                            x.id = A
+                        del stmts[j]
+                        del stmts[i]
+                        changed = True
+                        break
+                    if isinstance(sj, ast.Assign) and any(isinstance(x, ast.Name) and x.id == A and isinstance(x.ctx, ast.Store) for t in sj.targets for x in ast.walk(t)):
+                        break
+                if changed:
+                    break
+        return stmts
+    return work(fn_body)
+
+
+def unproduct(stmts: List[ast.stmt]) -> List[ast.stmt]:
+    """`for A, B in product(X, Y): S` -> `for A in X: for B in Y: S` (also `product(X, repeat=2)`); X, Y call-free or enumerate()/range() of call-free
+    expressions, so that evaluating Y once per outer iteration changes nothing (recursively)"""
+    def ok_factor(e):
+        inner = e.args[0] if isinstance(e, ast.Call) and isinstance(e.func, ast.Name) and e.func.id in ("enumerate", "range", "sorted", "list") and e.args else e
+        return not any(isinstance(x, ast.Call) and not (isinstance(x.func, ast.Name) and x.func.id == "len") for x in ast.walk(inner))
+    out = []
+    for s in stmts:
+        for fld in ("body", "orelse", "finalbody"):
+            v = getattr(s, fld, None)
+            if isinstance(v, list) and v and all(isinstance(x, ast.stmt) for x in v):
+                setattr(s, fld, unproduct(v))
+        if isinstance(s, ast.For) and not s.orelse and isinstance(s.iter, ast.Call) and ast.unparse(s.iter.func).split(".")[-1] == "product" \
+                and isinstance(s.target, (ast.Tuple, ast.List)):
+            facs = list(s.iter.args)
+            rep = next((k.value for k in s.iter.keywords if k.arg == "repeat"), None)
+            if rep is not None and isinstance(rep, ast.Constant) and isinstance(rep.value, int) and len(s.iter.keywords) == 1:
+                facs = facs * rep.value
+            elif s.iter.keywords:
+                facs = []
+            if facs and len(facs) == len(s.target.elts) and all(ok_factor(f) for f in facs) and not any(isinstance(x, ast.Break) for x in ast.walk(s)):
+                body = s.body
+                for tgt, fac in reversed(list(zip(s.target.elts, facs))):
+                    tgt = copy.deepcopy(tgt)
+                    for x in ast.walk(tgt):
+                        if isinstance(x, (ast.Name, ast.Tuple, ast.List)):
+                            x.ctx = ast.Store()
+                    loop = ast.For(target=tgt, iter=copy.deepcopy(fac), body=body, orelse=[], lineno=s.lineno)
+                    body = [loop]
+                out.append(ast.fix_missing_locations(body[0]))
+                continue
         out.append(s)
     return out
 
@@ -210,7 +298,7 @@ class Normaliser:
     def _expand(self, call: ast.Call, h: ast.FunctionDef, target, depth) -> Optional[List[ast.stmt]]:
         if not self._inlinable(h) and depth <= self.max_inline:
             nrets = sum(isinstance(n, ast.Return) for n in ast.walk(h))
-            if nrets > 1:
+            if nrets >= 1:
                 h2 = self.single_exit(h)
                 if h2 is not None and self._inlinable(h2):
                     h = h2
@@ -218,15 +306,10 @@ class Normaliser:
             return None
         deco = {ast.unparse(d) for d in h.decorator_list}
         pos = [a.arg for a in h.args.posonlyargs + h.args.args]
-        is_method = isinstance(call.func, ast.Attribute) and isinstance(call.func.value, ast.Name) and call.func.value.id in ("self", "cls")
-        is_super = isinstance(call.func, ast.Attribute) and isinstance(call.func.value, ast.Call) and isinstance(call.func.value.func, ast.Name) \
-            and call.func.value.func.id == "super"
         keep = {}
-        if is_method and "staticmethod" not in deco and pos:
-            keep[pos[0]] = call.func.value.id       # self / cls stay what they are
-            pos = pos[1:]
-        elif is_super and "staticmethod" not in deco and pos:
-            keep[pos[0]] = "cls" if "classmethod" in deco else "self"
+        rcv = self._receiver(call, h)
+        if rcv is not None and pos:
+            keep[pos[0]] = rcv                      # self / cls / the receiver object (class) stay what they are
             pos = pos[1:]
         if any(isinstance(a, ast.Starred) for a in call.args) or any(k.arg is None for k in call.keywords) or len(call.args) > len(pos):
             return None
@@ -302,12 +385,66 @@ class Normaliser:
         return out + body
 
     # ---------------------------------------------------------------- FUSE (generator consumed by a for loop)
+    @staticmethod
+    def desugar_yield_from(h: ast.FunctionDef) -> ast.FunctionDef:
+        """`yield from repeat(v, n)` -> `for _ in range(n): yield v`;  `yield from (E for T in I)` -> `for T in I: yield E`;
+        `yield from X` (X call-free) -> `for y in X: yield y`"""
+        if not any(isinstance(n, ast.YieldFrom) for n in ast.walk(h)):
+            return h
+        h = copy.deepcopy(h)
+        k = [0]
+
+        def conv(stmts):
+            out = []
+            for st in stmts:
+                for fld in ("body", "orelse", "finalbody"):
+                    v = getattr(st, fld, None)
+                    if isinstance(v, list) and v and all(isinstance(x, ast.stmt) for x in v):
+                        setattr(st, fld, conv(v))
+                if isinstance(st, ast.Expr) and isinstance(st.value, ast.YieldFrom):
+                    e = st.value.value
+                    k[0] += 1
+                    var = f"yf__{k[0]}"
+                    if isinstance(e, ast.Call) and ast.unparse(e.func).split(".")[-1] == "repeat" and len(e.args) == 2 and not e.keywords:
+                        out.append(ast.copy_location(ast.For(ast.Name(var, ast.Store()), ast.Call(ast.Name("range", ast.Load()), [e.args[1]], []),
+                                                             [ast.Expr(ast.Yield(e.args[0]))], []), st))
+                        continue
+                    if isinstance(e, ast.GeneratorExp) and len(e.generators) == 1 and not e.generators[0].is_async:
+                        g = e.generators[0]
+                        body = [ast.Expr(ast.Yield(e.elt))]
+                        for c_ in reversed(g.ifs):
+                            body = [ast.If(c_, body, [])]
+                        out.append(ast.copy_location(ast.For(g.target, g.iter, body, []), st))
+                        continue
+                    if not any(isinstance(x, ast.Call) for x in ast.walk(e)) or isinstance(e, ast.Call):
+                        out.append(ast.copy_location(ast.For(ast.Name(var, ast.Store()), e, [ast.Expr(ast.Yield(ast.Name(var, ast.Load())))], []), st))
+                        continue
+                out.append(st)
+            return out
+        h.body = conv(h.body)
+        ast.fix_missing_locations(h)
+        return h
+
+    def _receiver(self, call: ast.Call, h: ast.FunctionDef):
+        """what the first parameter of `h` stands for at this call: 'self' / 'cls' for the analysed class's own methods, the receiver name for a
+        method of another module-level class (`plan.step_sizes()` / `_StepPlan.between(...)`); None for a static method / plain function"""
+        deco = {ast.unparse(d) for d in h.decorator_list}
+        if "staticmethod" in deco or not isinstance(call.func, ast.Attribute):
+            return None
+        v = call.func.value
+        if isinstance(v, ast.Name):
+            return v.id
+        if isinstance(v, ast.Call) and isinstance(v.func, ast.Name) and v.func.id == "super":
+            return "cls" if "classmethod" in deco else "self"
+        return None
+
     def _fuse(self, loop: ast.For, h: ast.FunctionDef, depth) -> Optional[List[ast.stmt]]:
         """for T in self.g(a): BODY   ->   g's body with every `yield E` replaced by `T = E; BODY`
         (g only yields -- no send(), no return value, no try/finally around a yield; BODY has no break / return, so the generator always runs to its end)"""
         call = loop.iter
         if loop.orelse or depth > self.max_inline or h.args.vararg or h.args.kwarg:
             return None
+        h = self.desugar_yield_from(h)
         hb = [s for s in h.body if not (isinstance(s, ast.Expr) and isinstance(s.value, ast.Constant))]
         for n in ast.walk(ast.Module(body=hb, type_ignores=[])):
             if isinstance(n, (ast.YieldFrom, ast.FunctionDef, ast.Lambda, ast.ClassDef, ast.Try, ast.With, ast.Global, ast.Nonlocal)):
@@ -329,9 +466,9 @@ class Normaliser:
                 return None
         pos = [a.arg for a in h.args.posonlyargs + h.args.args]
         keep = {}
-        is_method = isinstance(call.func, ast.Attribute) and isinstance(call.func.value, ast.Name) and call.func.value.id in ("self", "cls")
-        if is_method and "staticmethod" not in {ast.unparse(d) for d in h.decorator_list} and pos:
-            keep[pos[0]] = call.func.value.id
+        rcv = self._receiver(call, h)
+        if rcv is not None and pos:
+            keep[pos[0]] = rcv
             pos = pos[1:]
         if any(isinstance(a, ast.Starred) for a in call.args) or any(k.arg is None for k in call.keywords) or len(call.args) > len(pos):
             return None
@@ -472,6 +609,10 @@ class Normaliser:
             return stmts
         out = []
         for s in stmts:
+            lt = getattr(self.resolve_call, "local_types", None)
+            if lt is not None and isinstance(s, ast.Assign) and len(s.targets) == 1 and isinstance(s.targets[0], ast.Name) and isinstance(s.value, ast.Call) \
+                    and isinstance(s.value.func, ast.Name) and s.value.func.id in getattr(self.resolve_call, "classes", {}):
+                lt[s.targets[0].id] = s.value.func.id          # `x = ClassName(...)`: methods of x resolve in ClassName
             if isinstance(s, ast.For) and isinstance(s.iter, ast.Call):
                 h = self.resolve_call(s.iter)
                 if h is not None and any(isinstance(n, ast.Yield) for n in ast.walk(h)):
@@ -491,6 +632,19 @@ class Normaliser:
             elif isinstance(s, ast.Return) and isinstance(s.value, ast.Call):
                 call, target = s.value, "return"
             h = self.resolve_call(call) if call is not None else None
+            if h is not None and len(call.args) == 1 and isinstance(call.args[0], ast.Starred) and not call.keywords and not h.args.vararg \
+                    and not h.args.defaults and not h.args.kwonlyargs:
+                # `self.h(*E)`: E unpacks into exactly h's positional parameters -- `t0, t1 = E; self.h(t0, t1)`
+                deco_ = {ast.unparse(d) for d in h.decorator_list}
+                npos = len(h.args.posonlyargs + h.args.args) - (0 if "staticmethod" in deco_ or isinstance(call.func, ast.Name) else 1)
+                if npos >= 1:
+                    self.k += 1
+                    tmps = [f"{h.name}__a{self.k}_{i}" for i in range(npos)]
+                    self.caller_names |= set(tmps)
+                    pre = ast.copy_location(ast.Assign([ast.Tuple([ast.Name(t_, ast.Store()) for t_ in tmps], ast.Store())], call.args[0].value), s)
+                    call.args = [ast.Name(t_, ast.Load()) for t_ in tmps]
+                    ast.fix_missing_locations(pre)
+                    out.extend(self.inline_block([pre], depth))
             if h is not None:
                 ex = self._expand(call, h, target if target != "return" else "return", depth)
                 if ex is not None:
@@ -831,8 +985,8 @@ class Normaliser:
                 parents[id(ch)] = n
         plan = {}
         for v, defs in stores.items():
-            if len(defs) != 1 or nstores.get(v) != 1:
-                continue
+            if nstores.get(v) != len(defs):
+                continue            # some binding of v is not a plain `v = E`
             loads = [n for n in ast.walk(mod) if isinstance(n, ast.Name) and n.id == v and isinstance(n.ctx, ast.Load)]
             if not loads:
                 continue
@@ -852,7 +1006,7 @@ class Normaliser:
             cands = [(nm, f) for nm, f in self.namedtuples.items() if attrs <= set(f) and all(len(u.targets[0].elts) == len(f) for u in unpacks)]
             if len({f for _, f in cands}) != 1:
                 continue
-            plan[v] = (cands[0][1], defs[0])
+            plan[v] = (cands[0][1], defs)
         if not plan:
             return body
 
@@ -863,7 +1017,7 @@ class Normaliser:
                 return self_.generic_visit(n)
 
             def visit_Assign(self_, n):
-                if len(n.targets) == 1 and isinstance(n.targets[0], ast.Name) and n.targets[0].id in plan and n is plan[n.targets[0].id][1]:
+                if len(n.targets) == 1 and isinstance(n.targets[0], ast.Name) and n.targets[0].id in plan and any(n is d_ for d_ in plan[n.targets[0].id][1]):
                     v = n.targets[0].id
                     n.value = self_.visit(n.value)
                     n.targets = [ast.Tuple([ast.Name(f"{v}__{f}", ast.Store()) for f in plan[v][0]], ast.Store())]
@@ -936,10 +1090,14 @@ class Normaliser:
         out = copy.deepcopy(fn)
         self.caller_names = {n.id for n in ast.walk(fn) if isinstance(n, ast.Name)} | {a.arg for a in ast.walk(fn) if isinstance(a, ast.arg)}
         body = [s for s in out.body if not (isinstance(s, ast.Expr) and isinstance(s.value, ast.Constant) and isinstance(s.value.value, str))]
+        body = unproduct(body)
         body = self.inline_block(body)
         body = self.beta(body)
         body = self.attr_forward(body)
-        body = self.nt_unpack(body)
+        if self.namedtuples:
+            body = split_assign(body, self.namedtuples)
+            body = split_assign(self.nt_unpack(body), self.namedtuples)
+            body = coalesce_copies(body)
         out.body = self.block(body)
         out.body = self.version_block(out.body)
         out = self.alias(out)
@@ -984,6 +1142,19 @@ def class_resolver(mod: ast.Module, cls: Optional[ast.ClassDef] = None, exclude=
 
     def resolve(call: ast.Call):
         f = call.func
+        if isinstance(f, ast.Attribute) and isinstance(f.value, ast.Name) and f.value.id not in ("self", "cls"):
+            # `ClassName.method(...)` (class / static method of a module-level class) or `obj.method()` where obj was built by `ClassName(...)`
+            cn = f.value.id if f.value.id in classes else resolve.local_types.get(f.value.id)
+            if cn in classes and f.attr not in exclude and (cls is None or cn != cls.name):
+                m_ = methods(classes[cn]).get(f.attr)
+                if m_ is not None:
+                    deco_ = {ast.unparse(d) for d in m_.decorator_list}
+                    if f.value.id in classes and not (deco_ & {"classmethod", "staticmethod"}):
+                        return None
+                    if "property" in deco_:
+                        return None
+                    return m_
+            return None
         if isinstance(f, ast.Attribute) and isinstance(f.value, ast.Call) and isinstance(f.value.func, ast.Name) and f.value.func.id == "super" \
                 and not f.value.args and not f.value.keywords:
             return None if f.attr in exclude else base_ms.get(f.attr)
@@ -998,6 +1169,8 @@ def class_resolver(mod: ast.Module, cls: Optional[ast.ClassDef] = None, exclude=
                     return None
             return h
         return None
+    resolve.local_types = {}
+    resolve.classes = classes
     return resolve
 
 
@@ -1321,6 +1494,34 @@ def flatten_else(stmts: List[ast.stmt]) -> List[ast.stmt]:
     return out
 
 
+def guard_raise(stmts: List[ast.stmt], in_loop=False, is_func_body=False) -> List[ast.stmt]:
+    """GUARD-RAISE: `if c: return` (bare; or `continue` in a loop body) followed by statements that end in a raise and contain no other exit
+    == `if not c: <those statements>`: the refusal is spelled as the guarded arm (recursively)"""
+    out: List[ast.stmt] = []
+    stmts = list(stmts)
+    for s in stmts:
+        for fld in ("body", "orelse", "finalbody"):
+            v = getattr(s, fld, None)
+            if isinstance(v, list) and v and all(isinstance(x, ast.stmt) for x in v) and not isinstance(s, (ast.FunctionDef, ast.AsyncFunctionDef, ast.ClassDef)):
+                setattr(s, fld, guard_raise(v, in_loop or isinstance(s, (ast.For, ast.While)) and fld == "body", False))
+        if isinstance(s, ast.Try):
+            for h in s.handlers:
+                h.body = guard_raise(h.body, in_loop, False)
+    i = 0
+    while i < len(stmts):
+        s = stmts[i]
+        rest = stmts[i + 1:]
+        if isinstance(s, ast.If) and not s.orelse and len(s.body) == 1 and rest and isinstance(rest[-1], ast.Raise) \
+                and ((isinstance(s.body[0], ast.Return) and s.body[0].value is None and is_func_body)
+                     or (isinstance(s.body[0], ast.Continue) and in_loop)) \
+                and not any(isinstance(x, (ast.Return, ast.Continue, ast.Break, ast.Yield, ast.YieldFrom)) for r_ in rest for x in ast.walk(r_)):
+            out.append(ast.copy_location(ast.If(nnf(s.test, True), rest, []), s))
+            return out
+        out.append(s)
+        i += 1
+    return out
+
+
 def _sig_tables(tree: ast.Module):
     classes = {c.name: c for c in tree.body if isinstance(c, ast.ClassDef)}
     funcs = {f.name: f for f in tree.body if isinstance(f, ast.FunctionDef)}
@@ -1436,6 +1637,9 @@ def canon_module(tree: ast.Module) -> ast.Module:
     """FORWARD + CMPDIR over every function of the module (in place); records the counts on the tree"""
     nf = 0
     _Tests().visit(tree)
+    for n in ast.walk(tree):
+        if isinstance(n, (ast.FunctionDef, ast.AsyncFunctionDef)):
+            n.body = guard_raise(n.body, False, True)
     for n in tree.body:
         if isinstance(n, (ast.FunctionDef, ast.AsyncFunctionDef, ast.ClassDef)):
             n.body = flatten_else(n.body)        # recursive: methods and nested functions included
